@@ -879,13 +879,14 @@ Dic<String> String::split(const String& sep1, const String& sep2) const
 
 int myatoi(const char* s)
 {
-	int y = 0, sgn = 1;
+	unsigned y = 0; // unsigned: "-2147483648" must not overflow
+	int sgn = 1;
 	if (s[0] == '-') { sgn = -1; s++; }
 	else if (s[0] == '+') s++;
 	int c;
 	while (c = *s++, c >= '0' && c <= '9')
-		y = 10 * y + (c - '0');
-	return y*sgn;
+		y = 10 * y + unsigned(c - '0');
+	return (sgn < 0) ? int(0u - y) : int(y);
 }
 
 int myatoiz(const char* s)
@@ -901,13 +902,14 @@ int myatoiz(const char* s)
 
 Long myatol(const char* s)
 {
-	Long y = 0, sgn = 1;
+	ULong y = 0; // unsigned: "-9223372036854775808" must not overflow
+	int sgn = 1;
 	if (s[0] == '-') { sgn = -1; s++; }
 	else if (s[0] == '+') s++;
 	int c;
 	while (c = *s++, c >= '0' && c <= '9')
-		y = 10 * y + (c - '0');
-	return y*sgn;
+		y = 10 * y + ULong(c - '0');
+	return (sgn < 0) ? Long(0ull - y) : Long(y);
 }
 
 double myatof(const char* s)
@@ -983,14 +985,15 @@ int myltoa(Long x, char* s)
 		s[1] = '\0';
 		return 1;
 	}
+	ULong u = ULong(x);
 	if (x<0)
 	{
 		s[j++] = '-';
-		x = -x;
+		u = 0ull - u; // negate as unsigned: -x overflows for the most negative value
 	}
-	while (x != 0) {
-		ss[i++] = char(x % 10) + '0';
-		x = x / 10;
+	while (u != 0) {
+		ss[i++] = char(u % 10) + '0';
+		u = u / 10;
 	}
 	while (i > 0)
 		s[j++] = ss[--i];
